@@ -61,6 +61,16 @@ CHECKS = {
             "For datasets of 2..4 id-coded samples, 2..4 classes, equal and differing shapes (pad_or_cut_end), p in {0.3,1}, every index and six mode orders, the full product of the per-sample generator's answers (apply draw around the threshold, every partner, 4 weights) is executed on the real wrapper; the output must be explained by one (partner, weight) for image and label together, found by search over all partners; p=1 must mix; real seeded generators (seeds 0..7) check that image-only, label-only, joint and repeated requests describe one draw.",
             "Trusted: the explanation search in kdverif/props/c11.py; cutmix raises NotImplementedError (outside the claim).",
             "DESIGN.md section 5 C11"),
+    "C12": ("E3-lockstep", "model_checking",
+            "explicit-state enumeration of sampler configurations; reference model = the world-size-1 global draw, replayed against every rank's real stream; permutation answers enumerated with a torch proxy",
+            "Distributed, class-balanced and weighted samplers for every dataset size 1..6 (quick) / 1..8 (thorough), world sizes 1..4 (incl. larger than the dataset), every rank, epochs 0..3, seeds 0..2, num_repeats 1..3, drop_last and shuffle on/off: the rank streams of the real samplers are interleaved and compared index by index with the single global draw (only a tail dropped or the head wrapped around), every rank must yield len(sampler) entries, the global draw itself must be a permutation / runs of num_repeats consecutive slots, equal (seed, epoch) must reproduce and set_epoch must change the draw (n>=6). For sizes <=4 every answer of the permutation draw is enumerated (module-global torch replaced by a proxy, same answers replayed on every rank). RandomSampler covers the single-process repeat clause.",
+            "Trusted: the world-size-1 stream as definition of the global draw (its validity is checked separately); torch's own DistributedSampler for num_repeats=1.",
+            "DESIGN.md section 5 C12"),
+    "C13": ("E1-choice", "exploration",
+            "exhaustive enumeration of label layouts x sampler parameters x world sizes with seeded draws, plus full enumeration of permutation/multinomial answers (torch proxy) for pools <=4",
+            "All class layouts of length 2..5 (quick) / 2..6 (thorough) with every class present, all labeled/unlabeled splits, samples_per_class None/1..4, chunk sizes 1..3 x 1..3, the three length modes, weight vectors over {0,1,3}, sizes, world sizes 1..3: exact per-class counts over all ranks, even reuse, strict alternation, duplicate-free aligned pool windows, equal and differently seeded rank streams (two large layouts), no repeated index, valid indices and the documented epoch length are checked on the real samplers for seeds 0..2 x epochs 0..1 and, for small pools, for every answer of every random draw.",
+            "Trusted: oracle formulas in kdverif/props/c13.py taken from the samplers' docstrings; weighted sampler sizes above the number of non-zero weights are outside the domain.",
+            "DESIGN.md section 5 C13"),
     "C15": ("E2-bfs", "model_checking",
             "BFS over factor sequences with the parameter vector as state (path-independence oracle) + lock-step simulation of round-robin workers for the scheduled transform",
             "Every transform class that supports strength scaling (found by introspection, 2-3 constructor settings each) and compositions: all factor sequences of length <=3 (quick, 4 factors) / <=4 (thorough, 5 factors) are applied to real objects; the numeric parameter vector after a path ending in f must equal fresh.scale(f), f=1 must restore the constructed ranges exactly, f=0 must be the weakest setting, every bound must move monotonically and og_* values must never change; sampled parameters at the range ends (ChoiceRng) tie the state to behaviour. Scheduled transform: 1..4 simulated round-robin workers x batch sizes 1..3 x 1..8 batches x three budget kinds; strength in ctx and applied to every sample of global batch b must equal the schedule's value at b.",
